@@ -673,7 +673,7 @@ class Molecule(UnitsManaged, Saveable, OpenSystem):
             iof = self.egcf_matrix.get_index_by_where((n,n))
             
             if iof >= 0:
-                return self.egcf_matrix.cfunc[iof]
+                return self.egcf_matrix.cfuncs[iof]
 
         raise Exception("No environment set for the transition")   
 
